@@ -11,7 +11,7 @@ from dataclasses import dataclass
 
 from ..cfg import CFG
 from ..loader import AnalysisError, FunctionInfo, walk_scope
-from ..util import mini_eval, names_in, txt
+from ..util import mini_eval, txt
 
 
 # ---------------------------------------------------------------------------------------------
@@ -42,9 +42,41 @@ def eval3(test: ast.expr, env: dict[str, object], must: "callable[[ast.expr], bo
         return None
 
 
+def derive_env(scope: ast.AST, env: dict[str, object]) -> dict[str, object]:
+    """Extend ``env`` with single-assignment locals whose right-hand side evaluates under it
+    (``limited = semaphore is not None`` ; ``too_large = resp.status_code == 413``), so that a guard
+    spelled through such a flag is decided like the inlined guard."""
+    stores: dict[str, int] = {}
+    cands: dict[str, ast.expr] = {}
+    for n in walk_scope(scope):
+        if isinstance(n, ast.Name) and isinstance(n.ctx, ast.Store):
+            stores[n.id] = stores.get(n.id, 0) + 1
+        if isinstance(n, ast.Assign) and len(n.targets) == 1 and isinstance(n.targets[0], ast.Name):
+            cands[n.targets[0].id] = n.value
+        elif isinstance(n, ast.AnnAssign) and isinstance(n.target, ast.Name) and n.value is not None:
+            cands[n.target.id] = n.value
+    out = dict(env)
+    for _round in range(3):
+        grew = False
+        for name, rhs in cands.items():
+            if name in out or stores.get(name, 0) != 1:
+                continue
+            if not any(isinstance(x, (ast.Compare, ast.BoolOp, ast.UnaryOp)) for x in [rhs]):
+                continue  # only boolean flags, not arbitrary data flow
+            try:
+                out[name] = mini_eval(rhs, out)
+                grew = True
+            except (AnalysisError, TypeError, ValueError, KeyError, IndexError, AttributeError):
+                pass
+        if not grew:
+            break
+    return out
+
+
 def infeasible_edges(cfg: CFG, scope: ast.AST, env: dict[str, object], must) -> set[tuple[int, int]]:
     """Edges of If/While tests inside ``scope`` that cannot be taken when ``env`` holds."""
     out: set[tuple[int, int]] = set()
+    env = derive_env(scope, env)
     for n in walk_scope(scope):
         if isinstance(n, (ast.If, ast.While)):
             v = eval3(n.test, env, must)
@@ -712,3 +744,17 @@ def local_reach(res, roots: list[FunctionInfo], depth: int | None = None) -> dic
         frontier = nxt
         d += 1
     return seen
+
+
+def resolves_to(res, fi: FunctionInfo, c: ast.Call, target_fq: str) -> bool:
+    """Does call c resolve to the function ``target_fq``?  Cheap name prefilter first (the callee's
+    last component, or a local import alias of it, must be the target's name) so that unrelated calls
+    never trigger the parsing of the modules they import from."""
+    tname = target_fq.rsplit(":", 1)[-1].rsplit(".", 1)[-1]
+    f = c.func
+    last = f.attr if isinstance(f, ast.Attribute) else (f.id if isinstance(f, ast.Name) else "")
+    if last != tname:
+        imp = fi.module.imports.get(last)
+        if not (imp is not None and imp[0] == "name" and imp[-1] == tname):
+            return False
+    return any(t.fq == target_fq for t in res.resolve(fi, c, heuristic=False))
